@@ -1,90 +1,51 @@
 (* Proofs/CodecRTAll.v — C06: the round-trip theorem, by nested induction on type terms. *)
 From PV Require Import Base.Bytes Base.BytesLemmas Base.Res Base.Proto.
 From PV Require Import Gen.Types Gen.CodecFacts Model.Codec Model.CodecDom.
-From PV Require Import Proofs.CodecRTBase Proofs.CodecRT Proofs.CodecRTDict Proofs.CodecRTComp.
+From PV Require Import Proofs.CodecRTBase Proofs.CodecRT Proofs.CodecRTDict Proofs.CodecRTComp Proofs.CodecRTStag.
 Open Scope Z_scope.
 
-Definition PRT (t : ty) : Prop := RT t /\ EM t.
+(* the induction invariant: the round-trip law, BufferEmptyError on the empty buffer (for
+   Array(None, T)), constant encoded width and totality of decoding (for StructTag layouts) *)
+Definition PRT (t : ty) : Prop := RT t /\ EM t /\ FW t /\ AD t.
 
-Lemma Forall_PRT_RT {A} (f : A -> ty) ms : Forall (fun m => PRT (f m)) ms -> Forall (fun m => RT (f m)) ms.
-Proof. induction 1; constructor; [now destruct H|assumption]. Qed.
-Lemma Forall_PRT_EM {A} (f : A -> ty) ms : Forall (fun m => PRT (f m)) ms -> Forall (fun m => EM (f m)) ms.
-Proof. induction 1; constructor; [now destruct H|assumption]. Qed.
+Lemma Forall_proj {A} (f : A -> ty) (P Q : ty -> Prop) ms :
+  (forall t, P t -> Q t) -> Forall (fun m => P (f m)) ms -> Forall (fun m => Q (f m)) ms.
+Proof. intros H. induction 1; constructor; [now apply H|assumption]. Qed.
 
 Lemma em_trivial t : consumes t = false -> EM t.
 Proof. intros H _ Hc. congruence. Qed.
 
-Section WithStructTag.
-  Hypothesis rt_TStructTag :
-    forall ms bits priv size, Forall (fun m => PRT (snd m)) ms -> RT (TStructTag ms bits priv size).
+Ltac four := split; [|split; [|split]].
 
-  Lemma prt_all : forall t, PRT t.
-  Proof.
-    apply ty_nested_ind.
-    - split; [apply rt_TBool|apply em_TBool].
-    - intros; split; [apply rt_TInt|apply em_TInt].
-    - intros; split; [apply rt_TReal|apply em_TReal].
-    - split; [intros H; discriminate H|now apply em_trivial].
-    - intros; split; [apply rt_TStr|apply em_TStr].
-    - split; [apply rt_TStringN|apply em_TStringN].
-    - split; [apply rt_TStringI|apply em_TStringI].
-    - intros; split; [apply rt_TNBytes|now apply em_trivial].
-    - intros; split; [apply rt_TBits|apply em_TBits].
-    - intros n e [Hrt Hem]. split; [now apply rt_TArrFixed|now apply em_TArrFixed].
-    - intros. split; [intros H'; discriminate H'|now apply em_trivial].
-    - intros e [Hrt Hem]. split; [|now apply em_trivial].
-      apply rt_TArrAll; [exact Hrt|now apply ne_of_rt_em|exact Hem].
-    - intros k ms H. split; [apply rt_TStruct; now apply Forall_PRT_RT|apply em_TStruct; now apply Forall_PRT_EM].
-    - intros; split; [apply rt_TFixedStr|apply em_TFixedStr].
-    - intros ms bits priv size H. split; [now apply rt_TStructTag|apply em_TStructTag; now apply Forall_PRT_EM].
-    - split; [apply rt_TIPAddr|apply em_TIPAddr].
-    - split; [apply rt_TPcccAscii|now apply em_trivial].
-    - split; [apply rt_TPcccString|now apply em_trivial].
-  Qed.
-End WithStructTag.
-
-(* type terms without StructTag (the StructTag case is Proofs/CodecRTStag.v) *)
-Fixpoint no_stag (t : ty) : bool :=
-  match t with
-  | TArrFixed _ e | TArrAll e => no_stag e
-  | TArrPrefix _ lt e => no_stag lt && no_stag e
-  | TStruct _ ms => forallb (fun m => no_stag (snd m)) ms
-  | TStructTag _ _ _ _ => false
-  | _ => true
-  end.
-
-Lemma Forall_no_stag {A} (f : A -> ty) (P : ty -> Prop) ms :
-  Forall (fun m => no_stag (f m) = true -> P (f m)) ms -> forallb (fun m => no_stag (f m)) ms = true ->
-  Forall (fun m => P (f m)) ms.
+Lemma prt_all : forall t, PRT t.
 Proof.
-  induction 1 as [|m ms Hm _ IH]; intros Hn; constructor; cbn [forallb] in Hn; apply andb_prop in Hn as [H1 H2].
-  - now apply Hm.
-  - now apply IH.
-Qed.
-
-Lemma prt_no_stag : forall t, no_stag t = true -> PRT t.
-Proof.
-  apply (ty_nested_ind (fun t => no_stag t = true -> PRT t)).
-  - split; [apply rt_TBool|apply em_TBool].
-  - intros; split; [apply rt_TInt|apply em_TInt].
-  - intros; split; [apply rt_TReal|apply em_TReal].
-  - split; [intros H'; discriminate H'|now apply em_trivial].
-  - intros; split; [apply rt_TStr|apply em_TStr].
-  - split; [apply rt_TStringN|apply em_TStringN].
-  - split; [apply rt_TStringI|apply em_TStringI].
-  - intros; split; [apply rt_TNBytes|now apply em_trivial].
-  - intros; split; [apply rt_TBits|apply em_TBits].
-  - intros n e IH Hn. destruct (IH Hn) as [Hrt Hem]. split; [now apply rt_TArrFixed|now apply em_TArrFixed].
-  - intros. split; [intros H'; discriminate H'|now apply em_trivial].
-  - intros e IH Hn. destruct (IH Hn) as [Hrt Hem]. split; [|now apply em_trivial].
+  apply ty_nested_ind.
+  - four; [apply rt_TBool|apply em_TBool|apply fw_TBool|apply ad_TBool].
+  - intros; four; [apply rt_TInt|apply em_TInt|apply fw_TInt|apply ad_TInt].
+  - intros; four; [apply rt_TReal|apply em_TReal|apply fw_TReal|apply ad_TReal].
+  - four; [intros H; discriminate H|now apply em_trivial|now apply fw_none|now apply ad_none].
+  - intros; four; [apply rt_TStr|apply em_TStr|now apply fw_none|now apply ad_none].
+  - four; [apply rt_TStringN|apply em_TStringN|now apply fw_none|now apply ad_none].
+  - four; [apply rt_TStringI|apply em_TStringI|now apply fw_none|now apply ad_none].
+  - intros; four; [apply rt_TNBytes|now apply em_trivial|now apply fw_none|now apply ad_none].
+  - intros; four; [apply rt_TBits|apply em_TBits|apply fw_TBits|apply ad_TBits].
+  - intros n e (Hrt & Hem & Hfw & Had).
+    four; [now apply rt_TArrFixed|now apply em_TArrFixed|now apply fw_TArrFixed|now apply ad_TArrFixed].
+  - intros. four; [intros H'; discriminate H'|now apply em_trivial|now apply fw_none|now apply ad_none].
+  - intros e (Hrt & Hem & _ & _). four; [|now apply em_trivial|now apply fw_none|now apply ad_none].
     apply rt_TArrAll; [exact Hrt|now apply ne_of_rt_em|exact Hem].
-  - intros k ms H Hn. cbn [no_stag] in Hn. pose proof (Forall_no_stag snd PRT ms H Hn) as H'.
-    split; [apply rt_TStruct; now apply Forall_PRT_RT|apply em_TStruct; now apply Forall_PRT_EM].
-  - intros; split; [apply rt_TFixedStr|apply em_TFixedStr].
-  - intros ms bits priv size _ Hn. discriminate Hn.
-  - split; [apply rt_TIPAddr|apply em_TIPAddr].
-  - split; [apply rt_TPcccAscii|now apply em_trivial].
-  - split; [apply rt_TPcccString|now apply em_trivial].
+  - intros k ms H. four; [|apply em_TStruct|now apply fw_none|now apply ad_none].
+    + apply rt_TStruct. revert H. apply Forall_proj. now intros t (H & _).
+    + revert H. apply Forall_proj. now intros t (_ & H & _).
+  - intros; four; [apply rt_TFixedStr|apply em_TFixedStr|apply fw_TFixedStr|now apply ad_none].
+  - intros ms bits priv size H.
+    assert (Hmp : Forall (fun m => MP (snd m)) ms).
+    { revert H. apply Forall_proj. intros t (H1 & _ & H3 & H4). split; [exact H1|split; [exact H3|exact H4]]. }
+    four; [now apply rt_TStructTag| |now apply fw_TStructTag|now apply ad_none].
+    apply em_TStructTag. revert H. apply Forall_proj. now intros t (_ & H & _).
+  - four; [apply rt_TIPAddr|apply em_TIPAddr|apply fw_TIPAddr|apply ad_TIPAddr].
+  - four; [apply rt_TPcccAscii|now apply em_trivial|apply fw_TPcccAscii|now apply ad_none].
+  - four; [apply rt_TPcccString|now apply em_trivial|now apply fw_none|now apply ad_none].
 Qed.
 
 (* ------------------------------------------------------------------ the theorems in fuel-free form *)
@@ -92,13 +53,22 @@ Lemma decode_of_fuel t bs v rest :
   decode_fuel (S (length bs)) t bs = DOk v rest -> decode t bs = Ok (v, rest).
 Proof. unfold decode. now intros ->. Qed.
 
-Theorem roundtrip_no_stag t v rest :
-  no_stag t = true -> wf_ty t = true -> in_dom t v = true -> (greedy t = true -> rest = []) ->
+Theorem roundtrip t v rest :
+  wf_ty t = true -> in_dom t v = true -> (greedy t = true -> rest = []) ->
   exists bs, encode t v = Ok bs /\ decode t (bs ++ rest) = Ok (norm t v, rest).
 Proof.
-  intros Hn Hwf Hd Hg. destruct (prt_no_stag t Hn) as [Hrt _].
+  intros Hwf Hd Hg. destruct (prt_all t) as [Hrt _].
   destruct (Hrt Hwf v rest Hd Hg) as (bs & He & Hdec). exists bs. split; [exact He|].
   apply decode_of_fuel. apply Hdec. rewrite app_length. lia.
+Qed.
+
+(* decoding consumes exactly the encoding: the unread rest is what followed it *)
+Corollary decode_consumes_exactly t v rest bs :
+  wf_ty t = true -> in_dom t v = true -> (greedy t = true -> rest = []) -> encode t v = Ok bs ->
+  exists v', decode t (bs ++ rest) = Ok (v', rest).
+Proof.
+  intros Hwf Hd Hg He. destruct (roundtrip t v rest Hwf Hd Hg) as (bs' & He' & Hdec).
+  rewrite He in He'. injection He' as <-. eauto.
 Qed.
 
 (* encoding a structure from a dict or from the positional sequence of its values: identical bytes
